@@ -60,7 +60,7 @@ func (c17) Info() core.Info {
 			"only slice-level independence of Packets() is demanded",
 			"a predicate result (true, err) with err != nil is an error and not a completion (Go convention: other results mean nothing next to a non-nil error)",
 		},
-		RequiredProbes: []string{"payload_all_ff", "pred_err_is_done_sentinel", "very_long_unit", "reserved_afc_packet", "pusi_without_payload", "held_results_checked", "second_pusi_restart", "refused_before_start", "write_after_done", "pred_err", "nopayload_packet", "reset_mid", "buffer_reused", "scribbled", "done_at_first_packet", "empty_payload_packet", "af_overrun_packet", "pred_err_with_done_true", "reset_after_unit_of_268_packets_or_more"},
+		RequiredProbes: []string{"payload_all_ff", "pred_err_is_done_sentinel", "very_long_unit", "reserved_afc_packet", "pusi_without_payload", "held_results_checked", "second_pusi_restart", "refused_before_start", "write_after_done", "pred_err", "nopayload_packet", "reset_mid", "buffer_reused", "scribbled", "done_at_first_packet", "empty_payload_packet", "af_overrun_packet", "pred_err_with_done_true", "reset_after_unit_of_268_packets_or_more", "same_packet_written_twice"},
 	}
 }
 
@@ -220,6 +220,11 @@ func (c17) Gen(r *core.Rand, tier string) interface{} {
 		op := c17GenOp(r, i, true)
 		if i == 0 && r.Chance(2, 3) && op.Op == "write" && (op.Class == "pay" || op.Class == "afpay") {
 			op.PUSI = true
+		}
+		if i > 0 && r.Chance(1, 12) && s.Ops[i-1].Op == "write" {
+			// the same packet once more, byte for byte (a duplicate packet as ISO 13818-1
+			// allows, or a caller feeding the same buffer twice): a packet like any other
+			op = s.Ops[i-1]
 		}
 		s.Ops = append(s.Ops, op)
 	}
@@ -663,6 +668,9 @@ func (c17) Exec(script interface{}, c *core.Ctx) {
 			}
 			if shadow != nil && !run(shadow, spred, "after_reset:") {
 				return
+			}
+			if i > 0 && s.Ops[i-1] == op && e.kind == "accepted" {
+				c.Probe("same_packet_written_twice")
 			}
 			c.Log("write class=%s pusi=%t -> %s state=%d len=%d", op.Class, op.PUSI, e.kind, state, len(mbuf))
 		}
